@@ -66,12 +66,14 @@ structure RSt where
   splits : List RSplit := []   -- reader state, in assignment order
   out : List Ev := []          -- everything put on `outputStream` so far (placeholders carry their record)
   reports : List Report := []  -- `OnSourceRunnerCheckpointComplete` calls
+  finished : List (Nat × Nat) := []  -- splits the reader has dropped (shard end), with the stream position at that moment
 deriving Repr
 
 inductive RAct where
   | assign (splits : List (Nat × Nat))  -- `splitsWereAssigned`: (split, cursor)
   | read (batch : List Nat)             -- one `ReadEvents`: the splits of the returned records, in order
   | barrier (id : Nat)                  -- `checkpointBarrier`
+  | drop (split : Nat)                  -- the reader reached the end of the split and dropped it
 deriving Repr
 
 def hasSplit (ss : List RSplit) (s : Nat) : Bool := ss.any (·.split == s)
@@ -84,7 +86,9 @@ def assignOne (ss : List RSplit) (sc : Nat × Nat) : List RSplit := ss ++ [⟨sc
 def assignedIds : List RAct → List Nat
   | [] => []
   | .assign l :: as => l.map (·.1) ++ assignedIds as
-  | _ :: as => assignedIds as
+  | .read _ :: as => assignedIds as
+  | .barrier _ :: as => assignedIds as
+  | .drop _ :: as => assignedIds as
 
 /-- advance the cursor of split `s` (split ids are unique in the reader) -/
 def advance (ss : List RSplit) (s : Nat) : List RSplit :=
@@ -95,17 +99,24 @@ def curOf : List RSplit → Nat → Option Nat
   | r :: rs, s => if r.split == s then some r.cur else curOf rs s
 
 /-- one record of split `s` is read (cursor moves) and its placeholder is put on the output stream -/
-def readOne (st : RSt) (s : Nat) : RSt :=
+def isFinished (st : RSt) (s : Nat) : Bool := st.finished.any (·.1 == s)
+
+def readLive (st : RSt) (s : Nat) : RSt :=
   match curOf st.splits s with
   | none => st
   | some c => { st with splits := advance st.splits s, out := st.out ++ [Ev.record s c] }
+
+/-- a dropped split is not read any more -/
+def readOne (st : RSt) (s : Nat) : RSt := if isFinished st s then st else readLive st s
 
 def rstep (st : RSt) : RAct → RSt
   | .assign l => { st with splits := l.foldl assignOne st.splits }
   | .read b => b.foldl readOne st
   | .barrier n =>
-    -- `createCheckpoint` (cursor snapshot) and then `outputStream <- barrier`
-    { st with reports := st.reports ++ [⟨n, st.out.length, st.splits⟩], out := st.out ++ [Ev.barrier n] }
+    -- `createCheckpoint` (cursor snapshot of the splits the reader still holds) and then `outputStream <- barrier`
+    { st with reports := st.reports ++ [⟨n, st.out.length, st.splits.filter fun r => !isFinished st r.split⟩],
+              out := st.out ++ [Ev.barrier n] }
+  | .drop s => { st with finished := st.finished ++ [(s, st.out.length)] }
 
 def rrun (st : RSt) (as : List RAct) : RSt := as.foldl rstep st
 
@@ -132,6 +143,9 @@ structure KRd where
   totals : List (Nat × Nat) := []   -- environment: records in each shard
   limit : Nat := 1                  -- environment: records per `GetRecords`
   failIn : Nat := 0                 -- environment: the `failIn`-th `GetRecords` from now fails (0 = none)
+  closed : List Nat := []           -- environment: closed shards (split or merged away): they end
+  iter : List Nat := []             -- shards for which the reader holds a shard iterator
+  expired : List Nat := []          -- environment: shards whose iterator has expired
 deriving Repr
 
 inductive KAct where
@@ -140,9 +154,27 @@ inductive KAct where
   | fail (k : Nat)
   | read                            -- one `ReadEvents` through `ReadSourceChannel` and the loop
   | barrier (id : Nat)
+  | close (shard : Nat)             -- environment: the shard is closed
+  | expire                          -- environment: every shard iterator handed out so far expires
 deriving Repr
 
+/-- `assignedShards`: the shards the reader still holds, in assignment order -/
+def activeOf (r : RSt) : List RSplit := r.splits.filter fun x => !isFinished r x.split
+
 def totalOf (t : List (Nat × Nat)) (s : Nat) : Nat := t.foldl (fun acc p => if p.1 == s then acc + p.2 else acc) 0
+
+/-- a `GetRecords` that succeeds on shard `sp`: its records are emitted in one piece and the position moves; at the
+shard's end (`NextShardIterator == nil`) the job is notified and the shard is dropped from `assignedShards`
+(`shardIndex` stays and is brought back into range), otherwise the next shard is polled next time -/
+def kreadOk (k : KRd) (sp : RSplit) : KRd × Option (Option Nat) :=
+  let n := min k.limit (totalOf k.totals sp.split - sp.cur)
+  let r1 := rstep k.r (.read (List.replicate n sp.split))
+  if k.closed.contains sp.split && decide (totalOf k.totals sp.split ≤ sp.cur + n) then
+    let r2 := rstep r1 (.drop sp.split)
+    let len := (activeOf r2).length
+    ({ k with r := r2, idx := if len == 0 then k.idx else k.idx % len }, some (some n))
+  else
+    ({ k with r := r1, idx := (k.idx + 1) % (activeOf k.r).length }, some (some n))
 
 /-- outcome of a read seen by the loop: `some n` records, `none` = retryable error -/
 def kstep (k : KRd) : KAct → KRd × Option (Option Nat)
@@ -150,17 +182,23 @@ def kstep (k : KRd) : KAct → KRd × Option (Option Nat)
   | .assign l => ({ k with r := rstep k.r (.assign l) }, none)
   | .fail n => ({ k with failIn := n }, none)
   | .barrier n => ({ k with r := rstep k.r (.barrier n) }, none)
+  | .close s => ({ k with closed := s :: k.closed }, none)
+  | .expire => ({ k with expired := k.iter }, none)
   | .read =>
-    match k.r.splits[k.idx]? with
+    match (activeOf k.r)[k.idx]? with
     | none => (k, some (some 0))   -- no shards assigned: `return [][]byte{}, nil`
     | some sp =>
+      -- the shard has an iterator from now on (`refreshShardIterator` before the first `GetRecords`)
+      let k := { k with iter := if k.iter.contains sp.split then k.iter else sp.split :: k.iter }
       if k.failIn == 1 then
         -- `GetRecords` fails: the error is returned, no position has moved, nothing is emitted
         ({ k with failIn := 0 }, some none)
-      else
-        let n := min k.limit (totalOf k.totals sp.split - sp.cur)
-        ({ k with failIn := k.failIn - 1, r := rstep k.r (.read (List.replicate n sp.split)),
-                  idx := (k.idx + 1) % k.r.splits.length }, some (some n))
+      else if k.expired.contains sp.split then
+        -- `ExpiredIteratorException`: the iterator is refreshed and `GetRecords` is tried once more in the same call
+        let k := { k with failIn := k.failIn - 1, expired := k.expired.filter (· != sp.split) }
+        if k.failIn == 1 then ({ k with failIn := 0 }, some none)
+        else kreadOk { k with failIn := k.failIn - 1 } sp
+      else kreadOk { k with failIn := k.failIn - 1 } sp
 
 def krun (k : KRd) (as : List KAct) : KRd := as.foldl (fun k a => (kstep k a).1) k
 
